@@ -253,14 +253,14 @@ struct Harness {
     MemoryAccountant* accountant;
     SideAllocator side;
     bool c06;
-    bool threadsafe;                 // the g* operations use the thread-safe overloads
+    GlobalMemoryAllocatorStash stash; // `stash save` / `stash restore`
     // the two real plugins that drive the detector / the current allocators around a test
     MemoryLeakWarningPlugin* lwp;
     MemoryReporterPlugin* mrp;
     UtestShell* shell; StringBufferTestOutput* out; TestResult* result;
     bool mrp_active;                 // between its pre and post action (a second pre would make a report allocator its own real allocator)
 
-    Harness(bool c06_) : det(0), sink(0), period(mem_leak_period_disabled), accountant(0), c06(c06_), threadsafe(false), lwp(0), mrp(0), shell(0), out(0), result(0), mrp_active(false) {}
+    Harness(bool c06_) : det(0), sink(0), period(mem_leak_period_disabled), accountant(0), c06(c06_), lwp(0), mrp(0), shell(0), out(0), result(0), mrp_active(false) {}
 
     void init() {
         MemoryLeakWarningPlugin::turnOffNewDeleteOverloads();
@@ -274,6 +274,12 @@ struct Harness {
         sink = new MemoryLeakDetector(&sinkReporter);
         MemoryLeakWarningPlugin::setGlobalDetector(sink, &sinkReporter);
         SimpleString::setStringAllocator(&side);       // texts built by plugins / formatters stay out of the arena accounting
+        // The switch position of the real overloads (11 function pointers, their saved copies, the nesting counter) is script
+        // state.  Between two operations it is parked with saveAndDisableNewDeleteOverloads() (the harness's own new/delete must
+        // not reach a detector); every operation that uses or changes it runs between restoreNewDeleteOverloads() and the next
+        // saveAndDisableNewDeleteOverloads().  Initial position: the plain (not thread-safe) overloads.
+        MemoryLeakWarningPlugin::turnOnDefaultNotThreadSafeNewDeleteOverloads();
+        MemoryLeakWarningPlugin::saveAndDisableNewDeleteOverloads();
         shell = new UtestShell("group", "name", "file.cpp", 1);
         out = new StringBufferTestOutput(); result = new TestResult(*out);
         accountant = new MemoryAccountant();
@@ -613,8 +619,44 @@ struct Harness {
             }
             else if (o == "overloads" && w.size() >= 2 && (w[1] == "threadsafe" || w[1] == "plain")) {
                 // which set of overloads the g* operations switch on (the thread-safe ones take the detector's mutex)
-                threadsafe = w[1] == "threadsafe";
+                MemoryLeakWarningPlugin::restoreNewDeleteOverloads();
+                if (w[1] == "threadsafe") MemoryLeakWarningPlugin::turnOnThreadSafeNewDeleteOverloads();
+                else MemoryLeakWarningPlugin::turnOnDefaultNotThreadSafeNewDeleteOverloads();
+                MemoryLeakWarningPlugin::saveAndDisableNewDeleteOverloads();
                 vh::emit("> overloads %s", w[1].c_str());
+            }
+            else if (o == "ov" && w.size() >= 2 && !c06 && (w[1] == "off" || w[1] == "plain" || w[1] == "threadsafe" || w[1] == "save" || w[1] == "restore")) {
+                // ov off|plain|threadsafe|save|restore: the five switch functions of MemoryLeakWarningPlugin on the script's switch position
+                vh::emit("> ov %s", w[1].c_str());
+                MemoryLeakWarningPlugin::restoreNewDeleteOverloads();
+                if (w[1] == "off") MemoryLeakWarningPlugin::turnOffNewDeleteOverloads();
+                else if (w[1] == "plain") MemoryLeakWarningPlugin::turnOnDefaultNotThreadSafeNewDeleteOverloads();
+                else if (w[1] == "threadsafe") MemoryLeakWarningPlugin::turnOnThreadSafeNewDeleteOverloads();
+                else if (w[1] == "save") MemoryLeakWarningPlugin::saveAndDisableNewDeleteOverloads();
+                else MemoryLeakWarningPlugin::restoreNewDeleteOverloads();
+                bool b = MemoryLeakWarningPlugin::areNewDeleteOverloaded();
+                MemoryLeakWarningPlugin::saveAndDisableNewDeleteOverloads();
+                vh::emit("overloaded %d", b ? 1 : 0);
+            }
+            else if (o == "stash" && w.size() >= 2 && !c06 && (w[1] == "save" || w[1] == "restore")) {
+                vh::emit("> stash %s", w[1].c_str());
+                if (w[1] == "save") stash.save(); else stash.restore();
+                vh::emit("current %d %d %d", index_of(getCurrentNewAllocator()), index_of(getCurrentNewArrayAllocator()), index_of(getCurrentMallocAllocator()));
+            }
+            else if (o == "setcur-default" && w.size() >= 2 && !c06 && (w[1] == "new" || w[1] == "newarray" || w[1] == "malloc")) {
+                vh::emit("> setcur-default %s", w[1].c_str());
+                if (w[1] == "new") setCurrentNewAllocatorToDefault();
+                else if (w[1] == "newarray") setCurrentNewArrayAllocatorToDefault();
+                else setCurrentMallocAllocatorToDefault();
+                vh::emit("current %d %d %d", index_of(getCurrentNewAllocator()), index_of(getCurrentNewArrayAllocator()), index_of(getCurrentMallocAllocator()));
+            }
+            else if (o == "setcur" && w.size() >= 3 && !c06 && w[2] == "null" && (w[1] == "new" || w[1] == "newarray" || w[1] == "malloc")) {
+                // setCurrent…Allocator(NULL): the getter installs the family's default allocator when it finds NULL
+                vh::emit("> setcur %s null", w[1].c_str());
+                if (w[1] == "new") setCurrentNewAllocator(0);
+                else if (w[1] == "newarray") setCurrentNewArrayAllocator(0);
+                else setCurrentMallocAllocator(0);
+                vh::emit("current %d %d %d", index_of(getCurrentNewAllocator()), index_of(getCurrentNewArrayAllocator()), index_of(getCurrentMallocAllocator()));
             }
             else if (o == "setcur" && w.size() >= 3) {
                 // setcur new|newarray|malloc <alloc>
@@ -642,6 +684,8 @@ struct Harness {
                 vh::emit("> gacq %s %lu %s %lu", form.c_str(), (unsigned long) size, file, (unsigned long) line);
                 g_pending = slot; set_print_sizes(ai);
                 void* p = 0;
+                bool on = overloaded_now();
+                if (slot >= 0) g_usersize[slot] = size;
                 global_on();
                 if (form == "new") p = ::operator new(size);
                 else if (form == "new_fi") p = ::operator new(size, file, (int) line);
@@ -653,7 +697,34 @@ struct Harness {
                 else if (form == "newa_nt") p = ::operator new[](size, std::nothrow);
                 else p = cpputest_malloc_location(size, file, line);
                 global_off();
-                if (p) { Label l; l.addr = addr_of(p); l.size = size; labels[w[k]] = l; if (slot_base(p)) g_usersize[slot_of(p)] = size; fill_user((char*) p, size); track(p); }
+                if (p) { Label l; l.addr = addr_of(p); l.size = size; labels[w[k]] = l; if (slot_base(p)) g_usersize[slot_of(p)] = size; fill_user((char*) p, size); if (on) track(p); }
+                logf("ret %lu", addr_of(p));
+                flush();
+            }
+            else if (o == "grealloc" && w.size() >= 8 && !c06) {
+                // grealloc <label|null|@addr> <delta> <newlabel> <slot|same|null> <size> <file> <line>: cpputest_realloc_location,
+                // the C entry point behind realloc_fptr (mem_leak_realloc / threadsafe_mem_leak_realloc / normal_realloc)
+                unsigned long addr; size_t size = (size_t) vh::to_u64(w[5]); int slot = -1;
+                if (!resolve(w[1], w[2], addr) || !line_ok(w[7])) { vh::emit("> skip"); continue; }
+                bool isnull = w[4] == "null";
+                char* old = ptr_of(addr);
+                if (w[4] == "same") {
+                    if (!(old && slot_base(old) && g_live[slot_of(old)] && size <= MAXUSER)) { vh::emit("> skip"); continue; }
+                    slot = slot_of(old);
+                }
+                else if (!isnull && !slot_ok(w[4], size, slot)) { vh::emit("> skip"); continue; }
+                bool on = overloaded_now();
+                // with the overloads off the platform realloc gets the pointer: only NULL or a block the detector does not hold
+                if (!on && old && !(slot_base(old) && g_live[slot_of(old)] && !g_tracked[slot_of(old)])) { vh::emit("> skip"); continue; }
+                int ai = index_of(getCurrentMallocAllocator()); if (ai < 0) { vh::emit("> skip"); continue; }
+                const char* file = w[6].c_str(); size_t line = (size_t) vh::to_u64(w[7]);
+                vh::emit("> grealloc %lu %lu %s %lu", addr, (unsigned long) size, file, (unsigned long) line);
+                clear_text(); set_print_sizes(ai);
+                g_pending = slot; g_pending_null = isnull;
+                global_on();
+                char* p = (char*) cpputest_realloc_location(old, size, file, line);
+                global_off();
+                if (p) { Label l; l.addr = addr_of(p); l.size = size; labels[w[3]] = l; if (slot_base(p)) g_usersize[slot_of(p)] = size; fill_user(p, size); if (on) track(p); }
                 logf("ret %lu", addr_of(p));
                 flush();
             }
@@ -668,6 +739,12 @@ struct Harness {
                 bool known = false; for (size_t j = 0; j < 11; j++) if (form == forms[j]) known = true;
                 unsigned long addr;
                 if (!known || !resolve(w[k], w[k + 1], addr) || !line_ok(w[k + 3])) { vh::emit("> skip"); continue; }
+                if (!overloaded_now()) {
+                    // with the overloads off the pointer goes straight to the platform free: only NULL or a block the detector
+                    // does not hold may be given (anything else is client misuse outside the property)
+                    char* q = ptr_of(addr);
+                    if (q && !(in_arena(q) && slot_base(q) && g_live[slot_of(q)] && !g_tracked[slot_of(q)])) { vh::emit("> skip"); continue; }
+                }
                 const char* file = w[k + 2].c_str(); size_t line = (size_t) vh::to_u64(w[k + 3]);
                 TestMemoryAllocator* cur = form == "free" ? getCurrentMallocAllocator() : form.compare(0, 4, "dela") == 0 ? getCurrentNewArrayAllocator() : getCurrentNewAllocator();
                 int ai = index_of(cur); if (ai < 0) { vh::emit("> skip"); continue; }
@@ -699,14 +776,20 @@ struct Harness {
     // route the real overloads to the detector under test for the duration of one call
     void global_on() {
         MemoryLeakWarningPlugin::setGlobalDetector(det, &reporter);
-        if (threadsafe) MemoryLeakWarningPlugin::turnOnThreadSafeNewDeleteOverloads();
-        else MemoryLeakWarningPlugin::turnOnDefaultNotThreadSafeNewDeleteOverloads();
+        MemoryLeakWarningPlugin::restoreNewDeleteOverloads();
         g_in_det = true;
     }
     void global_off() {
         g_in_det = false;
-        MemoryLeakWarningPlugin::turnOffNewDeleteOverloads();
+        MemoryLeakWarningPlugin::saveAndDisableNewDeleteOverloads();
         MemoryLeakWarningPlugin::setGlobalDetector(sink, &sinkReporter);
+    }
+    // areNewDeleteOverloaded() in the script's switch position
+    bool overloaded_now() {
+        MemoryLeakWarningPlugin::restoreNewDeleteOverloads();
+        bool b = MemoryLeakWarningPlugin::areNewDeleteOverloaded();
+        MemoryLeakWarningPlugin::saveAndDisableNewDeleteOverloads();
+        return b;
     }
 };
 
